@@ -359,6 +359,13 @@ def rule_selection(ctx, fi):
 
 def rule_strict(ctx):
     ctx.rule('R4', 'strict rule: +1/-1 inclusive-stop correction, open bounds stay None, no wrap-around at position 0', 6)
+    # the structural reading (which evaluates the returned positions over a 5 x 5 grid) on trial; when it does not recognise how the bounds are located, the function is
+    # interpreted on concrete labels instead (every start / stop / step combination of the scenario table)
+    from ..report import on_trial
+    on_trial(ctx, _rule_strict_structural, [STRICT], ('R4',), '_locate_slice_strict')
+
+
+def _rule_strict_structural(ctx):
     fi = ctx.fn(STRICT)
     l1 = ctx.fn('dimarray.core.indexing.locate_one')
     for stepkind, has_start, has_stop in itertools.product(['none', 'pos', 'neg'], [True, False], [True, False]):
